@@ -224,10 +224,10 @@ class Exec(ExprMixin, CallMixin):
         return 0
 
     # ------------------------------------------------------------ functions
-    def call_function(self, finfo, args, kwargs=None, site=None):
+    def call_function(self, finfo, args, kwargs=None, site=None, inline=False):
         kwargs = kwargs or {}
         q = finfo.qualname
-        if q in self.use_contracts and q in self.contracts:
+        if not inline and q in self.use_contracts and q in self.contracts:
             return self.apply_contract(self.contracts[q], finfo, args, kwargs, site)
         if self.call_depth > 40:
             raise OutsideSubset(f"recursion depth exceeded at {q}")
@@ -249,7 +249,14 @@ class Exec(ExprMixin, CallMixin):
         args = list(args)
         if a.vararg:
             pos = args[:len(names)]
-            env[a.vararg.arg] = tuple(args[len(names):])
+            extra = args[len(names):]
+            if any(type(x).__name__ == "StarArgs" for x in extra):
+                if len(extra) != 1:
+                    raise OutsideSubset("mixed concrete and abstract star-args")
+                l = extra[0].alist
+                env[a.vararg.arg] = AList(l.shape, l.arr, l.off, l.n, True)
+            else:
+                env[a.vararg.arg] = tuple(extra)
             args = pos
         if len(args) > len(names):
             raise RaiseEx("TypeError", "too many arguments")
@@ -657,6 +664,8 @@ class Exec(ExprMixin, CallMixin):
                 return n, (lambda k: it.start + k)
         if isinstance(it, (list, tuple)):
             return len(it), (lambda k: self.py_index(list(it), k))
+        if isinstance(it, AbsObj):
+            return self.seq_len_get(it.theory.iterate(self, it))
         if isinstance(it, Obj):
             itf, _ = self.index.find_method(it.cls, "__iter__")
             if itf is not None:
